@@ -294,16 +294,34 @@ func runC15(p *core.Program, r *core.Report) {
 			long := hasFact(fs, "size", "<=", "len(str)") || hasFact(fs, "size", "<", "len(str)")
 			// an empty pad token cannot fill anything: the input is handed back as it is
 			noTok := hasFact(fs, "len(token)", "==", "0") || hasFact(fs, "len(token)", "<=", "0") || hasFact(fs, "len(token)", "<", "1") || hasFact(fs, "token", "==", "\"\"")
-			if !long && !noTok && len(alt.blk.Preds) > 1 {
-				// "size <= len(str) || len(token) == 0": every way into the return carries one of the two
-				all := true
-				for _, pr := range alt.blk.Preds {
-					pf := edgeFactsInto(x, fn, pr, alt.blk)
-					if !(hasFact(pf, "size", "<=", "len(str)") || hasFact(pf, "size", "<", "len(str)") || hasFact(pf, "len(token)", "==", "0") || hasFact(pf, "len(token)", "<=", "0") || hasFact(pf, "len(token)", "<", "1") || hasFact(pf, "token", "==", "\"\"")) {
-						all = false
+			if !long && !noTok {
+				// "size <= len(str) || len(token) == 0": every way into the return carries one
+				// of the two - into the return block itself, or into the block that gives a
+				// flag guarding the return its value (`pad, ok := helper(...); if !ok`)
+				merges := []*ssa.BasicBlock{alt.blk}
+				for _, g := range path.Guards(fn, alt.blk) {
+					if g.Synth {
+						continue
+					}
+					if pb, _, ok := path.FlagSource(g.If.Cond, g.Idx == 0); ok {
+						merges = append(merges, pb)
 					}
 				}
-				long = all
+				for _, mb := range merges {
+					if len(mb.Preds) < 2 {
+						continue
+					}
+					all := true
+					for _, pr := range mb.Preds {
+						pf := edgeFactsInto(x, fn, pr, mb)
+						if !(hasFact(pf, "size", "<=", "len(str)") || hasFact(pf, "size", "<", "len(str)") || hasFact(pf, "len(token)", "==", "0") || hasFact(pf, "len(token)", "<=", "0") || hasFact(pf, "len(token)", "<", "1") || hasFact(pf, "token", "==", "\"\"")) {
+							all = false
+						}
+					}
+					if all {
+						long = true
+					}
+				}
 			}
 			if long || noTok || rv == str {
 				c.ob("PT3", name, "long enough input returned unchanged", p.InstrPos(rt), (long || noTok) && rv == str, "the input must be returned unchanged exactly under size <= len(str) (or when the pad token is empty)")
@@ -317,7 +335,7 @@ func runC15(p *core.Program, r *core.Report) {
 			parts := flattenConcat(rv)
 			var desc []string
 			for _, pt := range parts {
-				pt = path.Strip(pt)
+				pt = path.Strip(path.ResolvePhi(fn, alt.blk, path.Strip(pt)))
 				if pt == str {
 					desc = append(desc, "str")
 					continue
